@@ -588,12 +588,25 @@ impl StakeKeeper {
                                 .sum::<Uint128>();
                             stake
                         });
-                    match delegation {
-                        Some(delegation) if delegation.amount.is_zero() => {
-                            STAKES.remove(&mut staking_storage, (&delegator, &validator));
+                    let is_empty = match delegation {
+                        Some(delegation) => delegation.amount.is_zero(),
+                        None => true,
+                    };
+                    if is_empty {
+                        STAKES.remove(&mut staking_storage, (&delegator, &validator));
+                        // the delegator must also be removed from the validator's stakers,
+                        // otherwise the next rewards update expects a stake that no longer exists
+                        if let Some(mut validator_info) =
+                            VALIDATOR_INFO.may_load(&staking_storage, &validator)?
+                        {
+                            if validator_info.stakers.remove(&delegator) {
+                                VALIDATOR_INFO.save(
+                                    &mut staking_storage,
+                                    &validator,
+                                    &validator_info,
+                                )?;
+                            }
                         }
-                        None => STAKES.remove(&mut staking_storage, (&delegator, &validator)),
-                        _ => {}
                     }
 
                     let staking_info = Self::get_staking_info(&staking_storage)?;
